@@ -26,6 +26,7 @@ import Pakhi.Lemmas.EvalInv
 import Pakhi.Lemmas.ParseWF
 import Pakhi.Lemmas.ParseNP
 import Pakhi.Lemmas.OutMono
+import Pakhi.Lemmas.Labels
 
 namespace Pakhi
 namespace C13
@@ -179,6 +180,30 @@ theorem error_keeps_output (prog : List Stmt) (g : GcMode) (f k : Nat) (cur : Li
     (h : runLoop prog g f k cur s = .err e) : ∃ t, outText e.out = outText s.out ++ t := by
   have := runLoop_out prog g f k cur s
   rw [h] at this; exact this
+
+/-- **the interpreter never invents a location**: the file and line of every located runtime error are a location written in the
+    program — of a statement, an expression or an identifier (imported code carries its module's file, a function body its own
+    lines) — for every program, world, collection schedule and fuel -/
+theorem reported_location_is_written_in_the_program (prog : List Stmt) (g : GcMode) (f : Nat) (w : World) (e : PErr)
+    (h : runLoop prog g f 0 prog (St.init w) = .err e) (hc : e.cls ≠ .unexpected) :
+    (⟨e.line, e.file⟩ : Meta) ∈ progLabels prog := by
+  apply Classical.byContradiction
+  intro hn
+  generalize hm0 : (⟨e.line, e.file⟩ : Meta) = m0 at hn
+  let σ : Meta → Meta := fun m => if m = m0 then ⟨m0.line + 1, m0.file⟩ else m
+  have hfix : ∀ m ∈ progLabels prog, σ m = m := by
+    intro m hm
+    have : m ≠ m0 := fun heq => hn (by rw [← heq]; exact hm)
+    simp only [σ, this, if_false]
+  have hr := runLoop_relabel σ prog g f 0 prog (St.init w)
+  rw [relL_fix σ prog hfix, show relSt σ (St.init w) = St.init w from rfl, h] at hr
+  simp only [Res.rel_err, Res.err.injEq] at hr
+  have hcls : (e.cls == ErrClass.unexpected) = false := by
+    cases hcl : e.cls <;> first | rfl | exact absurd hcl hc
+  have hl := congrArg PErr.line hr
+  simp only [relErr, hcls, Bool.false_eq_true, if_false, hm0, σ, if_true] at hl
+  have : m0.line = e.line := by rw [← hm0]
+  omega
 
 end C13
 end Pakhi
